@@ -945,7 +945,12 @@ def _ac_search(ctx, model):
     ctx.ob(f"{tag}/partitions/paths", saw == {"base", "step"}, loc(part_fn),
            f"paths {sorted(saw)}")
     # parts are non-empty: the subset generator starts at size 1
-    gens = [f for name, f in pnested.items() if f is not part_fn and any(
+    # (the subset generator may be a local function or a module-level helper)
+    candidates = dict(pnested)
+    for k_, (mm_, f_) in model.functions.items():
+        if mm_ is m:
+            candidates.setdefault(k_.split(":", 1)[1], f_)
+    gens = [f for name, f in candidates.items() if f is not part_fn and any(
         isinstance(c, ast.Call) and _u(c.func) == name for c in ast.walk(part_fn))]
     if len(gens) != 1:
         raise AnalysisError(f"{part_fn.name}: subset generator not recognised")
